@@ -1074,9 +1074,7 @@ func (p *prop) Run(line string) core.Outcome {
 	if !ok {
 		return core.Outcome{Impl: "bad-table", Tags: []string{"bad-table", "trivial"}}
 	}
-	t0 := time.Now()
 	o := p.exec(c, addr)
-	t1 := time.Now()
 	after := p.readConfig()
 	stateChanged := after != p.base
 	if stateChanged {
@@ -1086,9 +1084,6 @@ func (p *prop) Run(line string) core.Outcome {
 		if p.readConfig() != p.base {
 			panic("base config not restored")
 		}
-	}
-	if os.Getenv("C13_TIMING") != "" && time.Since(t0) > 20*time.Millisecond {
-		fmt.Fprintf(os.Stderr, "SLOW exec=%v rest=%v %s %s %s changed=%v\n", t1.Sub(t0), time.Since(t1), c.method, c.path, o.final, stateChanged)
 	}
 	out := core.Outcome{Impl: fmt.Sprintf("%s %s %d %d", o.final, core.Hex(o.path), o.cors, o.hits)}
 	fs, tags := p.oracle(c, addr, o, stateChanged)
